@@ -17,8 +17,9 @@ def run(P, chk, tier, client=False):
                    "signed char; unsigned subtractions used as sizes cannot wrap; every copy with an explicit length "
                    "and every indexed store stays inside the destination object; every (pointer, capacity) pair handed "
                    "to a writer states no more than the real capacity; lengths that persist between events satisfy "
-                   "inductive bounds; no path from a packet entry point ends the process. Obligations that speak only "
-                   "about a function's parameters are discharged at all of its call sites.")
+                   "inductive bounds; no path from a packet entry point ends the process; every loop and recursion has a "
+                   "termination argument (so the work per datagram is bounded; blocking system calls are not timed). "
+                   "Obligations that speak only about a function's parameters are discharged at all of its call sites.")
     chk.not_decided = ("loop-carried pointer arithmetic outside these classes (inline_dotify's copy loop), heap lifetime, "
                        "integer overflow in general, libc and zlib internals; the reviewed exceptions listed in the evidence.")
     roots = entry_points(P, client)
@@ -104,7 +105,107 @@ def run(P, chk, tier, client=False):
         for f, c, path in bad:
             chk.site(r9, f, ir.loc(c), "%s: %s" % (f.name, pp(c)[:40]), False, "reachable: %s" % " -> ".join(path))
         chk.site(r9, roots[0], roots[0].line, "%d functions reachable from %s" % (n, [r.name for r in roots]), not bad, "none ends the process")
+    termination(P, E, chk, prop, A.reach, client)
     chk.extra["reachable_functions"] = sorted(f.name for f in A.reach)
+
+
+def termination(P, E, chk, prop, reach, client):
+    """M8: every loop and every recursion of the packet-reachable functions has a termination argument."""
+    from iosa import termin
+    r8 = chk.rule(prop + ".M8", "loops and recursion end", "every loop reachable from a packet entry point has a ranking (a quantity "
+                  "read off its own comparisons that falls on every path round the loop and is bounded below), is a libc iteration "
+                  "over a finite object, or handles one datagram or timer tick per cycle; every call-graph cycle passes a strictly "
+                  "smaller counter that is tested before the call", "E2 ranking search (inductive, inner loops generalised) + E1 + E6",
+                  floor=50 if client else 40)
+    summ = {}
+    kinds = {}
+    for f in sorted(reach, key=lambda g: (g.unit.file, g.line)):
+        for h, body in sorted(fieldinv._loops(f).items()):
+            hb = f.blocks[h]
+            line = ir.loc(hb.term["cond"]) if hb.term and hb.term.get("cond") is not None else \
+                (ir.loc(hb.elems[0]) if hb.elems else f.line)
+            try:
+                kind, detail = termin.loop_argument(P, f, h, body, summ)
+            except AnalysisBroken as ex:
+                kind, detail = None, "shape not analysable: %s" % ex
+            kinds[kind] = kinds.get(kind, 0) + 1
+            chk.site(r8, f, line, "%s: loop at line %s" % (f.name, line), kind is not None,
+                     "%s: %s" % (kind, detail) if kind else "no termination argument found: %s" % detail)
+    # recursion: strongly connected components of the call graph restricted to the reachable set
+    ids = {id(f): f for f in reach}
+    succ = {i: {id(t) for c, t in P.callees_of(f) if id(t) in ids} for i, f in ids.items()}
+    index, low, onst, stack, sccs = {}, {}, set(), [], []
+
+    def strong(v):
+        work = [(v, iter(sorted(succ[v])))]
+        index[v] = low[v] = len(index)
+        stack.append(v)
+        onst.add(v)
+        while work:
+            x, it = work[-1]
+            adv = False
+            for y in it:
+                if y not in index:
+                    index[y] = low[y] = len(index)
+                    stack.append(y)
+                    onst.add(y)
+                    work.append((y, iter(sorted(succ[y]))))
+                    adv = True
+                    break
+                elif y in onst:
+                    low[x] = min(low[x], index[y])
+            if adv:
+                continue
+            work.pop()
+            if work:
+                low[work[-1][0]] = min(low[work[-1][0]], low[x])
+            if low[x] == index[x]:
+                comp = []
+                while True:
+                    y = stack.pop()
+                    onst.discard(y)
+                    comp.append(y)
+                    if y == x:
+                        break
+                sccs.append(comp)
+    def all_sccs():
+        index.clear(); low.clear(); onst.clear(); del stack[:]; del sccs[:]
+        for v in sorted(ids):
+            if v not in index:
+                strong(v)
+        return [c for c in sccs if len(c) > 1 or c[0] in succ[c[0]]]
+    nrec = 0
+    # latches: a call edge of a cycle that runs only while a flag is set, clears the flag first, and nothing reachable
+    # from the callee sets it again, is taken at most once on any call chain: the cycle is cut there
+    cut = True
+    while cut:
+        cut = False
+        for comp in all_sccs():
+            for i in comp:
+                f = ids[i]
+                for call, t in P.callees_of(f):
+                    if id(t) not in comp:
+                        continue
+                    lt = termin.latch_argument(P, E, f, call, t, reach)
+                    if lt is not None:
+                        nrec += 1
+                        chk.site(r8, f, ir.loc(call), "%s: call %s inside a call-graph cycle" % (f.name, pp(call)[:40]), True, lt)
+                        succ[i] = succ[i] - {id(t)} | {id(t2) for c2, t2 in P.callees_of(f) if id(t2) in ids and c2 is not call and id(t2) == id(t)}
+                        cut = True
+                        break
+                if cut:
+                    break
+            if cut:
+                break
+    for comp in all_sccs():
+        names = {ids[i].name for i in comp}
+        for i in comp:
+            f = ids[i]
+            for call, ok, detail in termin.recursion_argument(P, E, f, names):
+                nrec += 1
+                chk.site(r8, f, ir.loc(call), "%s: recursive call %s" % (f.name, pp(call)[:50]), ok, detail)
+    chk.extra["termination_arguments"] = {str(k): v for k, v in sorted(kinds.items(), key=lambda kv: str(kv[0]))}
+    chk.extra["termination_arguments"]["recursive calls"] = nrec
 
 
 def _norm(s):
@@ -487,6 +588,26 @@ def srv_exceptions(P, E, exc, c10ok):
     exc[("write_dns", "M2", "sizeof(mxbuf) - (b - mxbuf)")] = ("MX/SRV answers are assembled name by name without a local check", prem, ptxt)
     exc[("write_dns", "M2", "(255 < buflen ? 255 : buflen)")] = ("capacity handed to write_dns_nameenc in the MX/SRV loop", prem, ptxt)
     exc[("write_dns", "M3", "write_dns_nameenc(b, ")] = ("cursor into mxbuf handed to write_dns_nameenc", prem, ptxt)
+    # ---- codec calls through the ops tables (capacity by reference, terminator one past the stated capacity)
+    tx = [l for l in wd.locals if l["ref"]["name"] == "txtbuf"]
+    text = tx[0]["t"].get("size") if tx else None
+    chars = -(-8 * maxlen // 5)                 # the least efficient codec emits ceil(8n/5) characters (C07.R4)
+    exc[("write_dns", "M3c", "(txtbuf + 1, space)")] = (
+        "the stated capacity is the buffer minus the codec letter, the terminator would need one more byte: the payload bounds the output",
+        okc and text is not None and 1 + chars + 1 <= text,
+        "largest payload over all %d callers: %d bytes -> at most %d characters + letter + terminator <= %s" % (
+            len(P.callers_of(wd)), maxlen, chars, text))
+    chk9 = report.Check("C09", "quick", P)
+    rr7 = chk9.rule("C09.R7", "", "", "")
+    try:
+        c09.reserve(P, chk9, rr7, wn)
+        r7ok = bool(chk9.rules[rr7]["sites"]) and all(s_.ok for s_ in chk9.rules[rr7]["sites"])
+    except AnalysisBroken:
+        r7ok = False
+    exc[("write_dns_nameenc", "M3c", "(buf + 1, space)")] = (
+        "the reserve arithmetic of the hostname writer, judged as a whole by C09.R7", r7ok and prem,
+        "C09.R7 re-evaluated: letter + space + dots + 3 <= MIN(255, buflen) for every buflen >= 8; callers hand over 64 KB or an MX "
+        "remainder of at least 256 bytes (premise above)")
     # ---- write_dns_nameenc: strlen(buf) - 1
     stores = [x for b, x in wn.all_nodes() if x.get("k") == "Bin" and x["op"] == "=" and pp(sk(x["a"][0])) == "buf[0]"]
     nz = bool(stores) and all(cval(sk(x["a"][1])) not in (None, 0) for x in stores)
@@ -532,6 +653,7 @@ def cli_exceptions(P, E, exc, c10ok):
     ptxt = "C08.R1 re-evaluated: for every hostname limit 100..255, domain length in range and call site the space is in 2..4096 and the name fits"
     exc[("build_hostname", "M2", "(maxlen < buflen ? maxlen : buflen)")] = (
         "the reserve wraps only for a hostname limit smaller than the domain plus 8, outside the configurations C08 covers (local option -M)", ok, ptxt)
+    exc[("build_hostname", "M3c", "(buf, space)")] = ("the encoder's capacity is the reserve computed just before", ok, ptxt)
     exc[("build_hostname", "M3", "strncpy(b, ")] = ("the domain is appended after at most `space` encoded characters and their dots", ok, ptxt)
     # ---- dns_namedec: raw copy after buflen--
     dn = P.func("dns_namedec", "client.c")
